@@ -93,10 +93,12 @@ Theorem C01_price_to_tick_iterations_down : forall g ratio offset mp t t' fuel,
 Proof. exact search_down_iterations. Qed.
 Print Assumptions C01_price_to_tick_iterations_down.
 
-(* the unguarded loops are exactly Amm/Math.v's (the model the AMM checks compare with the code) *)
+(* the guarded loops are exactly Amm/Math.v's (the model the AMM checks compare with the code;
+   /repo HEAD contains the guard since "fix: stop the price->tick search when a step makes no
+   progress") *)
 Theorem C01_search_is_the_amm_model : forall mp tp,
-  multiplied_price_to_tick_g false SEARCH_FUEL mp tp = multiplied_price_to_tick mp tp.
-Proof. exact multiplied_price_to_tick_g_false. Qed.
+  multiplied_price_to_tick_g true SEARCH_FUEL mp tp = multiplied_price_to_tick mp tp.
+Proof. exact multiplied_price_to_tick_g_true. Qed.
 Print Assumptions C01_search_is_the_amm_model.
 
 (* swap loop: the counted loop is Pool.swap_loop; crossing passes <= initialised ticks offered by
@@ -141,18 +143,29 @@ Theorem C01_pow_approx_terminates : forall base exponent,
   HALF <= base <= P + HALF -> Z.abs exponent < P -> pow_approx base exponent <> None.
 Proof. exact pow_approx_terminates. Qed.
 Print Assumptions C01_pow_approx_terminates.
+(* every pool accepted by the (repaired) MsgCreatePool validation has a converging PowApprox *)
+Theorem C01_validated_pool_pow_converges : forall fee ratio offs,
+  pool_params_ok fee ratio offs = true -> pow_approx ratio (offs - dtrunc_dec offs) <> None.
+Proof. exact validated_pow_converges. Qed.
+Print Assumptions C01_validated_pool_pow_converges.
 (* ApproxRoot: the loop is bounded by its own constant (300 = maxApproxRootIterations) in the
    code and in Base/Dec.v (root_loop 300): nothing to prove. *)
 
 (* ------------------------------------------------------------------ (3) refutations *)
-(* price_ratio = 1 (MsgCreatePool validates nothing at the pinned commit): the search never ends *)
+(* the code as found = [search_up_g false] / [search_down_g false] (no guard) and no validation in
+   MsgCreatePool.  price_ratio = 1: the search never ends *)
 Theorem C01_price_ratio_one_diverges_refuted : forall mp offset,
-  offset < mp -> Z.abs mp <= DEC_LIM -> forall fuel t, search_up fuel mp offset P t = Err E_FUEL.
+  offset < mp -> Z.abs mp <= DEC_LIM -> forall fuel t, search_up_g false fuel mp offset P t = Err E_FUEL.
 Proof. exact price_ratio_one_diverges. Qed.
 Print Assumptions C01_price_ratio_one_diverges_refuted.
+(* regression: with the guard the same input ends at the first step with ErrPriceOutOfBound *)
+Theorem C01_price_ratio_one_guarded_regression : forall mp offset fuel t,
+  offset < mp -> Z.abs mp <= DEC_LIM -> search_up_g true (S fuel) mp offset P t = Err E_PRICE_OUT_OF_BOUND.
+Proof. exact price_ratio_one_guarded. Qed.
+Print Assumptions C01_price_ratio_one_guarded_regression.
 
 Theorem C01_price_ratio_le_one_diverges_refuted : forall ratio offset, 0 < ratio <= P ->
-  forall fuel mp t, 0 <= mp < offset -> mp <= DEC_LIM -> search_down fuel mp offset ratio t = Err E_FUEL.
+  forall fuel mp t, 0 <= mp < offset -> mp <= DEC_LIM -> search_down_g false fuel mp offset ratio t = Err E_FUEL.
 Proof. exact price_ratio_le_one_diverges. Qed.
 Print Assumptions C01_price_ratio_le_one_diverges_refuted.
 
@@ -167,9 +180,20 @@ Print Assumptions C01_price_ratio_next_to_one_refuted.
    multiplied price 1024e-18, and 1024 * 1.0001 rounds back to 1024: the loop as found never ends *)
 Theorem C01_tiny_price_default_ratio_refuted :
   first_position_search 1 (10 ^ 33) tp_default = Some (false, 1024, MULT) /\
-  forall fuel t, search_down fuel 1024 MULT RATIO_DEFAULT t = Err E_FUEL.
+  (forall fuel t, search_down_g false fuel 1024 MULT RATIO_DEFAULT t = Err E_FUEL) /\
+  (forall fuel t, search_down (S fuel) 1024 MULT RATIO_DEFAULT t = Err E_PRICE_OUT_OF_BOUND).
 Proof. exact tiny_price_default_ratio_diverges. Qed.
 Print Assumptions C01_tiny_price_default_ratio_refuted.
+
+(* price_ratio = 2, base offset -0.5 (accepted by the validation of commit 117698b, which had no
+   upper bound): PowApprox's series does not converge within the model's 4000 passes; on the real
+   application the first MsgCreatePosition does not return.  Rejected by [pool_params_ok]. *)
+Theorem C01_pow_approx_ratio_two_refuted :
+  pool_params_ok_lower 10000000000000000 (2 * P) (- HALF) = true /\
+  pow (2 * P) (- HALF) = None /\
+  pool_params_ok 10000000000000000 (2 * P) (- HALF) = false.
+Proof. exact pow_approx_ratio_two_does_not_converge. Qed.
+Print Assumptions C01_pow_approx_ratio_two_refuted.
 
 (* x/da: replication factor 10^19 passes Params.Validate as found and panics in EndBlock;
    rejected / harmless after the repair *)
